@@ -1,6 +1,6 @@
 import Clikit.Drv.C01
 import Clikit.Model.Resolver
-/-! Driver entries of the resolver model: `c03.resolve`, `c03.lead`, `c03.walk`. -/
+/-! Driver entries of the resolver model: `c03.resolve`, `c03.lead`, `c03.walk`, `c03.same`. -/
 namespace Clikit.Drv.C03
 open Lean Clikit.Drv Clikit.Parser Clikit.Resolver
 
@@ -36,6 +36,13 @@ def handle (m : String) (j : Json) : Option (R Json) :=
       return match walk (namedColl app) none names with
         | none => Json.null
         | some (_, p) => jStrs p
+  | "c03.same" => some do
+      -- do the two name lists look up the same commands in this tree, level by level?
+      -- (sufficient check for the hypothesis `SameLookups` of `Props/C03.alias_invariant`)
+      let app ← (← fArr j "commands").toList.mapM cmdOf
+      let a ← (← fArr j "names").toList.mapM asChars
+      let b ← (← fArr j "names2").toList.mapM asChars
+      return Json.bool (sameLookupsB (namedColl app) a b)
   | _ => none
 
 end Clikit.Drv.C03
